@@ -213,6 +213,26 @@ def c15Step (s : St) (line : String) : St × String :=
           let (ma, fs') := f tgtM
           ({ s with fields := fs' }, ma ++ " | " ++ (f tgtS).1)
         | none => bad
+      | "AddValidator", [pubH, credH, balH] =>
+        -- add_validator_to_registry: a fresh validator record and its balance are appended; since Altair also a
+        -- zero participation flag in both epochs and a zero inactivity score (minimal/mainnet presets:
+        -- EFFECTIVE_BALANCE_INCREMENT = 10^9, MAX_EFFECTIVE_BALANCE = 32 * 10^9)
+        match parseHex pubH, parseHex credH, parseHex balH with
+        | some pub, some cred, some bal =>
+          if pub.size != 48 || cred.size != 32 || bal.size != 8 then bad else
+          let b := readLe bal
+          let eff := Nat.min (b - b % 1000000000) 32000000000
+          let far := le64 (2^64 - 1)
+          let rec_ := pub ++ cred ++ le64 eff ++ ByteArray.mk #[0] ++ far ++ far ++ far ++ far
+          let app (fs : Fields) (f : String) (x : ByteArray) : Fields :=
+            match getField fs f with | some o => setField fs f (o ++ x) | none => fs
+          let fs1 := app (app s.fields "validators" rec_) "balances" bal
+          let fs2 := app (app (app fs1 "previous_epoch_participation" (ByteArray.mk #[0]))
+                        "current_epoch_participation" (ByteArray.mk #[0])) "inactivity_scores" (le64 0)
+          -- the model follows the regenerated fact that the method reaches `validators` through its own index
+          let okModel := modelTarget v "AddValidator" == some "validators" && modelTarget v "Balances" == some "balances"
+          ({ s with fields := fs2 }, (if okModel then diffStr s.fields fs2 else "unmodelled") ++ " | " ++ diffStr s.fields fs2)
+        | _, _, _ => bad
       | "RotateSyncCommittee", [h] =>
         match parseHex h with
         | some nxt =>
